@@ -35,6 +35,12 @@ func (f fl) MarshalJSON() ([]byte, error) {
 type reqT struct {
 	Ns uint64 `json:"ns"`
 	B  uint32 `json:"batch"`
+	// Reload > 0: the request is issued from INSIDE a reload of the resource's rules (consecutive requests with
+	// the same number belong to one flow.LoadRulesOfResource call that keeps the throttling rule unchanged: they
+	// run in a user generator that the rebuild calls); ReloadFails: that generator panics afterwards, the load
+	// fails and the old rules stay.  Either way the throttling rule is in force before, during and after.
+	Reload      int  `json:"in_reload,omitempty"`
+	ReloadFails bool `json:"reload_fails,omitempty"`
 }
 
 type seqCase struct {
@@ -202,6 +208,20 @@ func genSeq(r *rng.R, id int) seqCase {
 			led.last = now + w
 		}
 	}
+	// every third case: one or two reloads that keep the throttling rule, with requests issued from inside
+	if id%3 == 1 && !math.IsNaN(T) {
+		g, from := 0, 1
+		for k := 0; k < 2 && from < len(c.Ops)-1; k++ {
+			s := from + r.Intn(len(c.Ops)-1-from)
+			l := 1 + r.Intn(3)
+			g++
+			fails := r.Intn(3) == 0
+			for j := s; j < s+l && j < len(c.Ops)-1; j++ {
+				c.Ops[j].Reload, c.Ops[j].ReloadFails = g, fails
+			}
+			from = s + l + 1
+		}
+	}
 	return c
 }
 
@@ -247,6 +267,16 @@ func runSeq(c seqCase, clk *vclock.Clock) []obsT {
 	res := "c10-" + strconv.Itoa(c.ID)
 	rule := &flow.Rule{Resource: res, TokenCalculateStrategy: flow.Direct, ControlBehavior: flow.Throttling,
 		Threshold: float64(c.T), MaxQueueingTimeMs: c.TimeoutMs, StatIntervalInMs: c.StatMs}
+	// cases with reloads: a second rule that never blocks follows the throttling rule, and every reload adds a
+	// rule served by the harness' generator (strategy pair 5/4), which issues the requests of the group
+	hasReload := false
+	for _, o := range c.Ops {
+		hasReload = hasReload || o.Reload > 0
+	}
+	rules := []*flow.Rule{rule}
+	if hasReload {
+		rules = append(rules, &flow.Rule{Resource: res, TokenCalculateStrategy: flow.Direct, ControlBehavior: flow.Reject, Threshold: 1e18})
+	}
 	// Two cases in three start from a reload: a sibling rule that differs in exactly one field is in
 	// force first and has admitted a request (so its controller holds a pass time); the case's rule
 	// then replaces it.  A changed rule gets a fresh controller, so the model (fresh state, the case's
@@ -278,27 +308,28 @@ func runSeq(c seqCase, clk *vclock.Clock) []obsT {
 		}
 		clk.TakeSleeps()
 	}
-	if _, err := flow.LoadRules([]*flow.Rule{rule}); err != nil {
+	if _, err := flow.LoadRules(rules); err != nil {
 		panic(err)
 	}
-	if n := len(flow.GetRulesOfResource(res)); n != 1 {
+	if n := len(flow.GetRulesOfResource(res)); n != len(rules) {
 		panic(fmt.Sprintf("case %d: rule not in force (%d rules)", c.ID, n))
 	}
 	var out []obsT
-	for _, o := range c.Ops {
+	// one request; true: the checker is live-locked, the case is over
+	one := func(o reqT) bool {
 		clk.SetNs(o.Ns)
 		clk.TakeSleeps()
 		e, berr := guardedEntry(guard, res, sentinel.WithBatchCount(o.B))
 		sl := clk.TakeSleeps()
 		if guard.spun {
-			// the remaining requests are not issued: the checker is live-locked
+			// the remaining requests are not issued
 			for len(out) < len(c.Ops) {
 				out = append(out, obsT{Pass: false, BType: "spin", NSlp: len(sl)})
 			}
 			if e != nil {
 				e.Exit()
 			}
-			return out
+			return true
 		}
 		var w int64
 		for _, d := range sl {
@@ -314,8 +345,78 @@ func runSeq(c seqCase, clk *vclock.Clock) []obsT {
 			out = append(out, obsT{Pass: true, Wait: w, NSlp: len(sl)})
 			e.Exit()
 		}
+		return false
+	}
+	for i := 0; i < len(c.Ops); i++ {
+		o := c.Ops[i]
+		if o.Reload > 0 {
+			// one reload: the requests of the group run inside the generator the rebuild calls
+			j := i
+			for j < len(c.Ops) && c.Ops[j].Reload == o.Reload {
+				j++
+			}
+			group := c.Ops[i:j]
+			stop := false
+			genAct = func() {
+				for _, q := range group {
+					if one(q) {
+						stop = true
+						return
+					}
+				}
+				if o.ReloadFails {
+					panic("vh-c10: generator fails")
+				}
+			}
+			reload := append(append([]*flow.Rule{}, cloneRules(rules)...), &flow.Rule{Resource: res, TokenCalculateStrategy: genTcs, ControlBehavior: genCb, Threshold: 1e9 + float64(o.Reload)}) // a different list every time: an identical reload is a no-op
+			_, err := flow.LoadRulesOfResource(res, reload)
+			if genAct != nil {
+				panic(fmt.Sprintf("case %d: the reload did not call the generator", c.ID))
+			}
+			if (err != nil) != o.ReloadFails {
+				panic(fmt.Sprintf("case %d: reload error %v, expected failure %v", c.ID, err, o.ReloadFails))
+			}
+			if stop {
+				return out
+			}
+			i = j - 1
+			continue
+		}
+		if one(o) {
+			return out
+		}
 	}
 	return out
+}
+
+// the generator registered for the strategy pair genTcs / genCb runs genAct once and yields no controller
+const (
+	genTcs = flow.TokenCalculateStrategy(5)
+	genCb  = flow.ControlBehavior(4)
+)
+
+var genAct func()
+var errNoCtrl = fmt.Errorf("vh-c10: no controller for the generator rule")
+
+func cloneRules(rs []*flow.Rule) []*flow.Rule {
+	var out []*flow.Rule
+	for _, r := range rs {
+		c := *r
+		out = append(out, &c)
+	}
+	return out
+}
+
+func init() {
+	if err := flow.VerifSetGenerator(genTcs, genCb, func(*flow.Rule) error {
+		if f := genAct; f != nil {
+			genAct = nil
+			f()
+		}
+		return errNoCtrl
+	}); err != nil {
+		panic(err)
+	}
 }
 
 // ---- monitor: the property stated on the implementation's trace ----------------------------
@@ -473,6 +574,17 @@ func main() {
 			dist.Add(string(b))
 		}
 		rep.Count("seq_cases", 1)
+		for k, o := range c.Ops {
+			if o.Reload > 0 {
+				rep.Count("seq_requests_issued_inside_a_reload", 1)
+				if k == 0 || c.Ops[k-1].Reload != o.Reload {
+					rep.Count("seq_reloads_keeping_the_throttling_rule", 1)
+					if o.ReloadFails {
+						rep.Count("seq_reloads_that_fail", 1)
+					}
+				}
+			}
+		}
 		rep.Count(thrClass(float64(c.T)), 1)
 		if c.TimeoutMs == 0 {
 			rep.Count("maxq_zero", 1)
